@@ -289,6 +289,14 @@ def run_session(job, emit):
         pos[cid] = k + 1
         step = prog[k]
         env = envs[cid]
+        if step['op'] == 'E1.forget':
+            # the client drops its references: the objects are freed and their addresses become available again
+            for nm in step.get('a', []):
+                env.pop(nm, None)
+                esnap.pop((cid, nm), None)
+            gc.collect()
+            emit({'cid': cid, 'k': k, 'op': step['op'], 'nf': ('v', 'not-compared'), 'mutated': [], 'layout': []})
+            continue
         od = OPS.OPS.get(step['op'])
         frame = {'cid': cid, 'k': k, 'op': step['op']}
         if od is None:
@@ -411,4 +419,10 @@ def run_session(job, emit):
         frame['res_layout'] = layout_desc(res)
         emit(frame)
     import numpy
-    emit({'end': True, 'geterr': numpy.geterr()})
+    # floating-point environment of the interpreter thread: gradual underflow must still work (a library that switches
+    # flush-to-zero / denormals-are-zero on and does not restore it changes every later computation on tiny numbers)
+    tiny = numpy.float64(5e-324)
+    sub = numpy.array([1e-310, 3e-320])
+    fpenv = [bool(tiny * numpy.float64(1.0) != 0.0), bool((sub * 1.0 != 0.0).all()), bool(numpy.float64(2.2250738585072014e-308) / 4.0 != 0.0),
+             float(numpy.sum(sub) / 1e-310)]
+    emit({'end': True, 'geterr': numpy.geterr(), 'fpenv': fpenv})
